@@ -106,6 +106,8 @@ def exRunNodeBody (σ : Env) : Obs :=
 
 def exRunNodeBodyPre (σ : Env) : Bool := σ "select#0" == 0 || σ "select#0" == 1
 
+def kpReportBody (_σ : Env) : Obs := ⟨[("typeswitch ev := e.(type)", [])], none, false⟩
+
 /-- one entry per exact theorem: the translated term, its expected observation, the theorem's hypothesis -/
 structure Case where
   name : String
@@ -124,6 +126,7 @@ def cases : List Case := [
   ⟨"prepareSource", Trans.exPrepareSource, exPrepareSource, fun _ => true⟩,
   ⟨"superviseBody", Trans.exSuperviseBody, exSuperviseBody, fun _ => true⟩,
   ⟨"executeTail", Trans.exExecuteTail, exExecuteTail, fun _ => true⟩,
-  ⟨"runNodeBody", Trans.exRunNodeBody, exRunNodeBody, exRunNodeBodyPre⟩]
+  ⟨"runNodeBody", Trans.exRunNodeBody, exRunNodeBody, exRunNodeBodyPre⟩,
+  ⟨"reportLoopBody", Trans.kpReportBody, kpReportBody, fun _ => true⟩]
 
 end Firebolt.TransExpected
